@@ -164,6 +164,19 @@ XmlKeepWhitespaceOK(in, out) == SigKept(XmlSig(in), XmlSig(out)) /\ Collapsed(ou
    delimiters": the delimited spans are the same strings in the same order. *)
 TemplateOK(si, so) == so = si
 
+(* All HTML clauses for one configuration o (record of the option fields): "option is on =>
+   its relation holds".  Used by the trace specification (real code) and by the design model. *)
+Cl(name, ok) == [name |-> name, ok |-> ok]
+HtmlClauses(in, out, o, si, so) == <<
+  Cl("KeepEndTags", o.KeepEndTags => KeepEndTagsOK(in, out, o.KeepDocumentTags)),
+  Cl("KeepDocumentTags", o.KeepDocumentTags => KeepDocumentTagsOK(in, out)),
+  Cl("KeepQuotes", o.KeepQuotes => KeepQuotesOK(in, out)),
+  Cl("KeepDefaultAttrVals", o.KeepDefaultAttrVals => KeepDefaultAttrValsOK(in, out)),
+  Cl("KeepWhitespace", o.KeepWhitespace => HtmlKeepWhitespaceOK(in, out, o.Delims)),
+  \* KeepConditionalComments is a deprecated alias: exercised through the command line table only
+  Cl("Comments", ~o.KeepConditionalComments => CommentsOK(in, out, o.KeepComments, o.KeepSpecialComments, o.Delims)),
+  Cl("TemplateDelims", o.Delims # <<>> => TemplateOK(si, so)) >>
+
 (***************************************************************************)
 (* Precision (CSS, JS, JSON, SVG): "number of significant digits to        *)
 (* preserve for numbers, 0 means no trimming".                             *)
@@ -251,14 +264,23 @@ FeatureYear == [
   classfield |-> 2022, private |-> 2022, staticblock |-> 2022 ]
 \* "uses no syntax newer than that version unless the input already did"
 NewFeatures(fi, fo) == ToSet(fo) \ ToSet(fi)
-JsVersionOK(fi, fo, v) == v = 0 \/ \A f \in NewFeatures(fi, fo) : f \in DOMAIN FeatureYear /\ FeatureYear[f] <= v
+JsVersionOK(fi, fo, v, except) ==
+  v = 0 \/ \A f \in NewFeatures(fi, fo) \ except : f \in DOMAIN FeatureYear /\ FeatureYear[f] <= v
+(* Features whose ungated introduction is a known finding (known/C16.txt: `**` from Math.pow, shorthand
+   properties).  Generated documents do not contain the constructs and are judged on every feature; the
+   repository's own test inputs do, and are judged on all other features. *)
+KnownUngated == {"exp", "shorthandprop"}
 \* the same sentence, read off an independent parser's edition switch: the least edition that
 \* accepts the output is not above max(v, least edition that accepts the input)
 JsEditionOK(pvi, pvo, v) == v = 0 \/ pvo <= Max2(pvi, Max2(v, 5))
 (* KeepVarNames: "keeps variable names as they are and omits shortening variable names":
    no identifier spelling appears that the input did not have, neither as a binding nor as a
    reference (statements may be reordered or merged, so spellings are compared as sets). *)
-JsKeepVarNamesOK(idi, ido, dci, dco) == ToSet(ido) \subseteq ToSet(idi) /\ ToSet(dco) \subseteq ToSet(dci)
+\* constant folding may spell a value property of the global object (ECMA-262 19.1): new code, not a renamed variable
+GlobalValueNames == {"NaN", "Infinity", "undefined"}
+JsKeepVarNamesOK(idi, ido, dci, dco) ==
+  /\ ToSet(ido) \subseteq (ToSet(idi) \cup GlobalValueNames)
+  /\ ToSet(dco) \subseteq ToSet(dci)
 (* Precision in JS: documented rewrites introduce numeric literals of their own ("shorten true,
    false, and undefined to !0, !1 and void 0"), so the input's literals must be found, in
    order, among the output's (greedy earliest match is complete for order-preserving
